@@ -32,8 +32,9 @@ PROPS = {}
 
 def load_props():
     global PROPS
-    with open(os.path.join(VERIF, "tools", "props.json")) as f:
-        PROPS = json.load(f)
+    PROPS = {}
+    for f in sorted(glob.glob(os.path.join(VERIF, "tools", "props", "C*.json"))):
+        PROPS[os.path.basename(f)[:-5]] = json.load(open(f))
 
 
 def sh(cmd, timeout, cwd=None, env=None, stdin=None):
@@ -253,10 +254,11 @@ def evaluate(outdir):
 # ------------------------------------------------------------------------------------------------
 
 def known_findings(pid):
-    p = os.path.join(VERIF, "known_findings.json")
-    if not os.path.exists(p):
-        return []
-    return [e for e in json.load(open(p)).get("findings", []) if e.get("property") == pid]
+    out = []
+    for p in [os.path.join(VERIF, "known_findings.json")] + sorted(glob.glob(os.path.join(VERIF, "known_findings.d", "*.json"))):
+        if os.path.exists(p):
+            out += [e for e in json.load(open(p)).get("findings", []) if e.get("property") == pid]
+    return out
 
 
 def matches(entry, rec):
